@@ -347,9 +347,23 @@ func runWSSession(c WSCase, light bool) *evid.Failure {
 			wants[k] = m.payload()
 		}
 		ok, pan := within(wsStepDeadline, func() {
-			for k, m := range group {
-				if errs[k] = send(m, wants[k]); errs[k] != nil {
+			if c.Mode == 1 && group[0].Dir == 0 && len(group) > 1 && c.Msgs[i].Seed%2 == 0 {
+				// the frames of the group leave in ONE write: TCP carries the end of one frame
+				// and the start of the next in the same segment (and splits frame headers
+				// across segments when the group exceeds one)
+				var all []byte
+				for k, m := range group {
+					all = append(all, encodeFrame(1, m.Masked, m.key(), wants[k])...)
+				}
+				evid.Label("ws_frames_coalesced_in_one_write")
+				if errs[0] = conn.Write(all); errs[0] != nil {
 					return
+				}
+			} else {
+				for k, m := range group {
+					if errs[k] = send(m, wants[k]); errs[k] != nil {
+						return
+					}
 				}
 			}
 			for k, m := range group {
